@@ -369,6 +369,21 @@ def h_monomial_inverse(env, N, c):
     env.goal('receiver_unchanged', AND([arr_eq(m.g, g), eq(m.p, p)]))
 
 
+def h_constants(env, N):
+    M = Mods(env)
+    ident = tuple([0] * (2 * N))
+    one = env.run(lambda: M.pa.pauli_identity(N))
+    zero = env.run(lambda: M.pa.pauli_zero(N))
+    env.goal('no_exception', b_not(b_or(one.raised, zero.raised)))
+    if one.value is not None:
+        v = vec_of(one.value, N, M)
+        env.goal('pauli_identity', AND(b_and(eq(v[s][0], 1 if s == ident else 0), eq(v[s][1], 0)) for s in v))
+    if zero.value is not None:
+        v = vec_of(zero.value, N, M)
+        env.goal('pauli_zero', AND(b_and(eq(v[s][0], 0), eq(v[s][1], 0)) for s in v))
+        env.goal('pauli_zero_N', zero.value.N == N)
+
+
 KINDS = ('Pauli', 'PauliMonomial', 'PauliPolynomial')
 
 
@@ -424,6 +439,7 @@ def jobs(tier):
         if thorough:
             J.append(dict(harness=('c15', 'h_reduce_trace'), params=dict(N=N, ks=[0, 20, 20]), timeout_s=600, max_paths=20000, cost=60))
         J.append(dict(harness=('c15', 'h_reduce_trace'), params=dict(N=N, ks=[0, 20], tol=1e-3), timeout_s=600, cost=20))
+        J.append(dict(harness=('c15', 'h_constants'), params=dict(N=N)))
         for c in ((2, 0), (0, 1), (-0.5, 0), (0, -4)):
             J.append(dict(harness=('c15', 'h_monomial_inverse'), params=dict(N=N, c=list(c)), max_paths=5000))
         for how in ('rotate', 'transform'):
